@@ -140,6 +140,33 @@ def run_unit(unit, tier, canary=False):
     wd = os.path.join(WORK, 'v', '%s.%d' % (unit, os.getpid()))
     try:
         r = verus.run(u.text(), wd, unit)
+        # a constant that the extracted code now refers to (and the template does not list) is taken from the same source files
+        for _ in range(3):
+            missing = [re.search(r'cannot find value `(\w+)`', h[0]) for h in r.hard_errors]
+            names = sorted({m.group(1) for m in missing if m})
+            if not names or len(names) != len({h[0] for h in r.hard_errors}):
+                break
+            takes = []
+            rels = sorted({f.relpath for f in u.funcs if f.relpath and f.relpath.startswith('src/')})
+            for nm in names:
+                for rel in rels:
+                    try:
+                        txt = open(os.path.join(asm.REPO, rel), encoding='utf-8').read()
+                    except OSError:
+                        continue
+                    if re.search(r'^\s*(pub(\([^)]*\))?\s+)?(const|static)\s+%s\s*:' % re.escape(nm), txt, flags=re.M):
+                        takes.append((rel, nm))
+                        break
+            if len(takes) != len(names):
+                break
+            try:
+                u2 = asm.assemble(unit, extra_takes=tuple(takes) + tuple(info.get('auto_consts', ())))
+            except (ExtractError, OSError):
+                break
+            info['auto_consts'] = tuple(takes) + tuple(info.get('auto_consts', ()))
+            u = u2
+            info['u'] = u
+            r = verus.run(u.text(), wd, unit)
         info['r'] = r
         if r.hard_errors:
             info['status'] = 'undecided'
